@@ -65,6 +65,61 @@ pub fn poke_fat(img: &mut Store, g: &Geo, c: u32, val: u32) {
     }
 }
 
+/// ballast on a builder-made image: mark all but `keep` free clusters bad in the copies that are in use
+pub fn ballast_only(img: &mut Store, v: &VolCfg, rng: &mut Rng) -> Result<(), String> {
+    let g = refdec::geo(img)?;
+    let Some(keep) = v.ballast_keep else { return Ok(()) };
+    let mut free: Vec<u32> = vec![];
+    if g.fat_bits == 32 {
+        // sparse-aware: free = everything not present; take a window to keep this cheap
+        let p = refdec::parse(img)?;
+        let mut c = 2u32;
+        while c <= g.max_cluster() {
+            if refdec::fat_val(img, &g, c) == 0 {
+                free.push(c);
+            }
+            c += 1;
+        }
+        let _ = p;
+    } else {
+        free = (2..g.n_clusters + 2).filter(|c| refdec::fat_val(img, &g, *c) == 0).collect();
+    }
+    let keep = (keep as usize).min(free.len());
+    for _ in 0..keep {
+        let i = rng.usize_below(free.len());
+        free.swap_remove(i);
+    }
+    let copies: Vec<u32> = if g.mirroring() { (0..g.nfats).collect() } else { vec![g.active_fat()] };
+    for c in free {
+        for copy in &copies {
+            let base = g.fat_copy_off(*copy);
+            match g.fat_bits {
+                12 => {
+                    let o = base + u64::from(c) + u64::from(c / 2);
+                    let w = img.u16_at(o);
+                    let val = 0xFF7u16;
+                    let nw = if c & 1 == 0 { (w & 0xF000) | val } else { (w & 0x000F) | (val << 4) };
+                    img.put_u16(o, nw);
+                }
+                16 => img.put_u16(base + u64::from(c) * 2, 0xFFF7),
+                _ => {
+                    let o = base + u64::from(c) * 4;
+                    let old = img.u32_at(o);
+                    img.put_u32(o, (old & 0xF000_0000) | 0x0FFF_FFF7);
+                }
+            }
+        }
+    }
+    if g.fat_bits == 32 {
+        let fo = u64::from(g.fsinfo_sector) * u64::from(g.bps);
+        let cnt = img.u32_at(fo + 488);
+        if cnt != 0xFFFF_FFFF && cnt <= g.n_clusters {
+            img.put_u32(fo + 488, keep as u32);
+        }
+    }
+    Ok(())
+}
+
 /// Apply ballast / FS-info / status pokes to a freshly formatted image.
 pub fn dress(img: &mut Store, v: &VolCfg, rng: &mut Rng) -> Result<(), String> {
     let g = refdec::geo(img)?;
